@@ -578,6 +578,9 @@ func (e *GenEnv) build(s *GenSpec) *Built {
 			userCallback()
 			return e.run.customBody(t, body, ret)
 		}), Desc: s.K, Check: ret.Check}
+	case "CustomShared":
+		name := s.Fn
+		return &Built{G: rapid.Custom(func(t *rapid.T) any { return e.run.customShared(t, name) }), Desc: s.K, Check: func(v any) F { return F{"c": "pred", "ok": true} }}
 	case "Make":
 		return buildMake(s.Type)
 	}
@@ -698,6 +701,10 @@ func buildMake(typ string) *Built {
 		return mkOf[[3]float64]()
 	case "bool":
 		return mkOf[bool]()
+	case "mapboolint":
+		return mkOf[map[bool]int]()
+	case "mapbyteint":
+		return mkOf[map[int8]int16]()
 	case "emptystruct":
 		return mkOf[struct{}]()
 	case "set":
